@@ -861,7 +861,86 @@ func lawProgram(r *rng, identityOperand bool) string {
 	return strings.Join(prog, ";")
 }
 
+// pointWithRatio solves the curve equation for a point with x/y = t (independently of the
+// library) and returns its compressed encoding, or "" if there is none in the subgroup.
+func pointWithRatio(t *big.Int) string {
+	t = new(big.Int).Mod(t, pMod)
+	if t.Sign() == 0 {
+		return ""
+	}
+	// x = t y:  d t^2 u^2 - (a t^2 + 1) u + 1 = 0  for u = y^2
+	tt := mulm(t, t)
+	A := mulm(curveD, tt)
+	B := new(big.Int).Add(mulm(curveA, tt), bigOne)
+	B.Mod(B, pMod)
+	disc := subm(mulm(B, B), mulm(big.NewInt(4), A))
+	sq := new(big.Int).ModSqrt(disc, pMod)
+	if sq == nil {
+		return ""
+	}
+	inv2A := new(big.Int).ModInverse(mulm(big.NewInt(2), A), pMod)
+	for _, s := range []*big.Int{sq, subm(big.NewInt(0), sq)} {
+		u := mulm(new(big.Int).Mod(new(big.Int).Add(B, s), pMod), inv2A)
+		y := new(big.Int).ModSqrt(u, pMod)
+		if y == nil {
+			continue
+		}
+		x := mulm(t, y)
+		on, sg, _ := classifyX(x)
+		if !on || !sg {
+			continue
+		}
+		// compressed: x times the sign of y
+		if largerRoot(y).Cmp(y) != 0 {
+			x = subm(big.NewInt(0), x)
+		}
+		return be32(x)
+	}
+	return ""
+}
+
+// ratioTargets: values of x/y at which the reduction into the scalar field is delicate
+func ratioTargets(r *rng) []*big.Int {
+	var out []*big.Int
+	q3 := new(big.Int).SetUint64(qLimbs[3])
+	for k := int64(1); k <= 3; k++ {
+		kr := new(big.Int).Mul(big.NewInt(k), rMod)
+		for d := int64(-3); d <= 3; d++ {
+			out = append(out, add(kr, d))
+		}
+		// top limb equal to k * (top limb of r), lower limbs small / random / saturated
+		top := new(big.Int).Lsh(new(big.Int).Mul(big.NewInt(k), q3), 192)
+		for i := 0; i < 14; i++ {
+			low := new(big.Int).SetUint64(r.u64() >> uint(r.intn(64)))
+			if i%3 == 1 {
+				low = new(big.Int).And(r.big256(), sub(pow2(192), 1))
+			}
+			if i%3 == 2 {
+				low = new(big.Int).Lsh(new(big.Int).SetUint64(r.u64()), uint(64*r.intn(3)))
+			}
+			out = append(out, new(big.Int).Add(top, low))
+		}
+	}
+	for i := 0; i < 6; i++ {
+		out = append(out, sub(pMod, int64(1+r.intn(5))), big.NewInt(int64(1+r.intn(5))))
+	}
+	return out
+}
+
 func genGrp(w *bufio.Writer, r *rng, thorough bool, id string) {
+	if id == "C11" {
+		var regs []string
+		for _, t := range ratioTargets(r) {
+			if h := pointWithRatio(t); h != "" {
+				regs = append(regs, "dec:"+h)
+			}
+		}
+		for i := 0; i+6 <= len(regs); i += 6 {
+			prog := strings.Join(regs[i:i+6], ";") + ";flip:0;resc:1:" + be32(big.NewInt(7)) + ";o;add:2:8"
+			emit(w, "grp %s", prog)
+			emit(w, "batch %s", prog)
+		}
+	}
 	cnt := 60
 	if thorough {
 		cnt = 1500
